@@ -15,7 +15,8 @@ RULE = ("every history of <= L harness events {clock.advance(a), fire the outsta
         "count > 1 was passed, reset() moved the origin, or the loop ended by stop / failure")
 BOUNDS = {
     "quick": "L=4 events; intervals {0.5, 1.5}; advances {0.25, 0.5, 1.5, 2.5, 7}; start offsets {0, 0.75}; 7 behaviours per call",
-    "thorough": "L=5 events; intervals {0.5, 1.5, 2}; advances {0.25, 0.5, 1, 1.5, 2.5, 7}; start offsets {0, 0.75}; 9 behaviours per call",
+    "thorough": "L=5 events over the quick alphabet, plus L=4 events with intervals {0.5, 1.5, 2}; advances {0.25, 0.5, 1, 1.5, 2.5, 7}; "
+                "start offsets {0, 0.75}; 9 behaviours per call (adds: stop() then raise, reset() own loop then return)",
 }
 ASSUMPTIONS = [
     "task.Clock is the trusted time source: a call 'happens at boundary B' means (a) right after the previous call completed "
@@ -27,14 +28,16 @@ ASSUMPTIONS = [
     "when the start() Deferred fires is not constrained, only that it has fired exactly once when the loop has ended "
     "(stop()/failure happened and no function Deferred is outstanding)",
 ]
-MIN = {"quick": {"evaluations": 600000, "nontrivial": 60000, "outcomes": 8},
+MIN = {"quick": {"evaluations": 780000, "nontrivial": 63000, "outcomes": 7},
        "thorough": {"evaluations": 5000000, "nontrivial": 400000, "outcomes": 8}}
 
+_Q = dict(L=4, intervals=[0.5, 1.5], advances=[0.25, 0.5, 1.5, 2.5, 7.0], offsets=[0.0, 0.75],
+          behs=["ret", "defer", "raise", "stopself", "succeed", "fail", "stopdefer"])
 TIERS = {
-    "quick": dict(L=4, intervals=[0.5, 1.5], advances=[0.25, 0.5, 1.5, 2.5, 7.0], offsets=[0.0, 0.75],
-                  behs=["ret", "defer", "raise", "stopself", "succeed", "fail", "stopdefer"]),
-    "thorough": dict(L=5, intervals=[0.5, 1.5, 2.0], advances=[0.25, 0.5, 1.0, 1.5, 2.5, 7.0], offsets=[0.0, 0.75],
-                     behs=["ret", "defer", "raise", "stopself", "succeed", "fail", "stopdefer", "stopraise", "resetself"]),
+    "quick": [_Q],
+    "thorough": [dict(_Q, L=5),
+                 dict(L=4, intervals=[0.5, 1.5, 2.0], advances=[0.25, 0.5, 1.0, 1.5, 2.5, 7.0], offsets=[0.0, 0.75],
+                      behs=["ret", "defer", "raise", "stopself", "succeed", "fail", "stopdefer", "stopraise", "resetself"])],
 }
 
 
@@ -193,7 +196,12 @@ class H:
             if b == "stopself":
                 return None
         if b == "resetself":
-            self.lc.reset()     # no call is pending while the function runs: must not schedule anything
+            # no call is pending while the function runs: must not schedule anything; whether the origin moves is not constrained
+            self.reset_used = True
+            self.starts = self.starts | {t}
+            self.lc.reset()
+            if list(self.clock.getDelayedCalls()):
+                self.flag("LoopingCall:reset-schedules-call-while-function-is-running", "reset() from inside the call at %r" % t)
             return None
         d = defer.Deferred()
         self.outstanding = d
@@ -300,8 +308,8 @@ class H:
         return "ended-by-" + kind + ":" + (self.sd_fired[0].split(":")[0] if self.sd_fired else "unfired")
 
 
-def make_run(cfg, tier):
-    p = TIERS[tier]
+def make_run(cfg, tier, part=0):
+    p = TIERS[tier][part]
     L, advances, behs = p["L"], p["advances"], p["behs"]
 
     def run(ch):
@@ -329,27 +337,24 @@ def make_run(cfg, tier):
     return run
 
 
-CFGS = {}
-
-
-def configs(tier):
-    p = TIERS[tier]
+def configs(p):
     return [(i, now, wc, off) for i in p["intervals"] for now in (True, False) for wc in (False, True) for off in p["offsets"]]
 
 
 def shards(tier, seed):
     out = []
-    for cfg in configs(tier):
-        n = first_level(make_run(cfg, tier))
-        for k in range(n):
-            out.append([list(cfg), k])
+    for part, p in enumerate(TIERS[tier]):
+        for cfg in configs(p):
+            n = first_level(make_run(cfg, tier, part))
+            for k in range(n):
+                out.append([list(cfg), k, part])
     return out
 
 
 def run_shard(shard, tier, seed):
-    cfg, k = tuple(shard[0]), shard[1]
+    cfg, k, part = tuple(shard[0]), shard[1], shard[2]
     st = Stats()
-    run = make_run(cfg, tier)
+    run = make_run(cfg, tier, part)
     for ch, h in explore(run, bound=None, prefix=(k,)):
         st.evaluations += 1
         st.outcome(h.end)
@@ -359,7 +364,7 @@ def run_shard(shard, tier, seed):
             st.nt((cfg, tuple(h.calls), tuple(h.completions), h.end, tuple(sorted(h.flags))))
         if h.bad:
             for sig, detail in h.bad:
-                st.violation(sig, detail, {"cfg": list(cfg), "tier": tier, "choices": ch.choices, "labels_tail": ch.labels[-6:]})
+                st.violation(sig, detail, {"cfg": list(cfg), "tier": tier, "part": part, "choices": ch.choices, "labels_tail": ch.labels[-6:]})
         elif st.evaluations % 50021 == 1:
             st.sample({"cfg": list(cfg), "calls": h.calls, "completions": h.completions, "end": h.end})
     return st
@@ -367,6 +372,6 @@ def run_shard(shard, tier, seed):
 
 def replay(w):
     cfg = tuple(w["cfg"])
-    run = make_run(cfg, w.get("tier", "quick"))
+    run = make_run(cfg, w.get("tier", "quick"), w.get("part", 0))
     h = run(Chooser(w["choices"]))
     return list(h.bad)
